@@ -149,6 +149,22 @@ CostFamilies == {
     <<"zip_ratio",             {"skipped"},        {11534336, 67108864}>>,
     <<"zip_ratio",             {"admitted"},       {1048576, 8388608}>>,
     <<"mbox_from",             {"bare", "full"},   {100, 1000}>>,
+    \* typed-but-empty ODS cells / rows (value-type string, no text) repeated: they are EMPTY, the caps apply
+    <<"ods_cell_repeat_typed_empty", {"string_p.first", "string_p.last", "string_nop.first", "string_nop.last", "string_attr.first", "string_attr.last", "string_span.first", "string_span.last"},
+                               {100, 10000, 1000000, 100000000, P2}>>,
+    <<"ods_row_repeat_typed_empty", {"string_p.first", "string_p.last", "string_nop.first", "string_nop.last", "string_attr.first", "string_attr.last", "string_span.first", "string_span.last"},
+                               {100, 10000, 100000000}>>,
+    \* many / nested bitmap headers and PNG signatures in a Word binary stream
+    <<"doc_dib_headers",       {"nested", "chain", "overrun", "disjoint"}, {10, 1000, 4000}>>,
+    <<"doc_png_signatures",    {"nested", "bare", "disjoint"}, {10, 1000, 4000}>>,
+    \* one very long "From " line: <shape>.<newline-terminated or not>.<last line of a mailbox / the only line>
+    <<"mbox_longline", {
+        "years.nl.last", "years.nl.only", "years.eof.last", "years.eof.only", "digits.nl.last",
+        "digits.nl.only", "digits.eof.last", "digits.eof.only", "spaces.nl.last", "spaces.nl.only",
+        "spaces.eof.last", "spaces.eof.only", "letters.nl.last", "letters.nl.only", "letters.eof.last",
+        "letters.eof.only", "nonspace.nl.last", "nonspace.nl.only", "nonspace.eof.last", "nonspace.eof.only",
+        "yearsnosp.nl.last", "yearsnosp.nl.only", "yearsnosp.eof.last", "yearsnosp.eof.only", "froms.nl.last",
+        "froms.nl.only", "froms.eof.last", "froms.eof.only" }, {1000, 10000, 100000}>>,
     \* hostile picture headers (first length field 0 / 1 / maximum / 2000 minimal segments) inside documents
     <<"image_header", {
         "jpeg_zero@rtf", "jpeg_tiny@rtf", "jpeg_huge@rtf", "jpeg_many@rtf", "png_zero@rtf", "png_tiny@rtf",
@@ -178,6 +194,8 @@ NominalKiB(c, mag, pos) ==
       [] c = "mbox_from" -> 1 + (mag * 34) \div 1024
       [] c = "pdf_loop" -> 1
       [] c = "image_header" -> 2
+      [] c \in {"doc_dib_headers", "doc_png_signatures"} -> 140 + (mag * 40) \div 1024
+      [] c = "mbox_longline" -> 1 + mag \div 1024
       [] OTHER -> 4
 
 CostScns == UNION { { [Scn("cost") EXCEPT !.c = fam[1], !.pos = p, !.mag = m, !.skib = NominalKiB(fam[1], m, p)] :
